@@ -101,6 +101,7 @@ def _hooks(model, desc):
       layers.extend(l.calibration_layers)
   grid_vals = set(np.float32(v) for ax in gp.grid_axes(desc) for v in ax)
   degenerate = False
+  degenerate_any = False
   wrong_sign = False
   for l in layers:
     if isinstance(l, pl.PWLCalibration) and getattr(l, "built", False) and l.input_keypoints_type == "learned_interior":
@@ -109,6 +110,8 @@ def _hooks(model, desc):
       if not np.all(np.isfinite(lengths)):
         degenerate = True
       mask = (kps + lengths).astype(np.float32) == kps
+      if mask.any() or not np.all(np.isfinite(lengths)):
+        degenerate_any = True          # also covers output calibrators, whose input is internal to the model
       for k in kps[mask]:
         if np.float32(k) in grid_vals:
           degenerate = True
@@ -119,7 +122,7 @@ def _hooks(model, desc):
         for d, m in enumerate(mono):
           if (m == 1 and K[d].min() < 0) or (m == -1 and K[d].max() > 0):
             wrong_sign = True
-  return {"degenerate_learned_keypoint_on_grid": degenerate, "linear_wrong_sign": wrong_sign}
+  return {"degenerate_learned_keypoint_on_grid": degenerate, "degenerate_learned_keypoint_any": degenerate_any, "linear_wrong_sign": wrong_sign}
 
 
 def _judge(ctx, case, model, step, label):
@@ -137,14 +140,17 @@ def _judge(ctx, case, model, step, label):
   try:
     y = np.asarray(model.predict(X, verbose=0, batch_size=8192)).reshape(G[0].shape).astype(np.float64)
   except Exception as e:
-    fk = "KF-C05-a" if hooks["degenerate_learned_keypoint_on_grid"] else None
+    # an exception here is an out-of-range / NaN index inside a clip_inputs=False lattice: name the upstream mechanism
+    fk = "KF-C05-a" if hooks["degenerate_learned_keypoint_any"] else None
+    if fk is None:
+      fk = findings.classify_c03(step, "exception", _calibrator_ranges(model), core.REL_TOL, hooks)
     ctx.check("state/finite", False, "model evaluation raised %s with finite weights after %s: %s" % (
         type(e).__name__, label, str(e).strip().splitlines()[-1][:200]), info=info, finding=fk)
     return None
   fin = bool(np.all(np.isfinite(y)))
   cal = _calibrator_ranges(model)
   ctx.check("state/finite", fin, "non-finite model output with finite weights after %s" % label, info=info,
-            finding=("KF-C05-a" if (not fin and hooks["degenerate_learned_keypoint_on_grid"]) else None))
+            finding=("KF-C05-a" if (not fin and hooks["degenerate_learned_keypoint_any"]) else None))
   if not fin:
     return None
   tol = core.REL_TOL * core.scale_of(y)
@@ -183,7 +189,7 @@ def _judge(ctx, case, model, step, label):
       v = max(lo, hi) if okf else float("inf")
       fk = None
       if v > tb:
-        fk = findings.classify_c03(step, "bounds", cal, tb, hooks)
+        fk = ("KF-C05-a" if (not okf and hooks["degenerate_learned_keypoint_any"]) else findings.classify_c03(step, "bounds", cal, tb, hooks))
       ctx.check("state/bounded-on-grid", v <= tb, "outputs on the %s leave [%s, %s]: range [%.6g, %.6g] after %s" % (
           name, omin, omax, np.nanmin(yy), np.nanmax(yy), label), info=dict(info, calibrators=cal), finding=fk, ratio=max(v, 0) / tb)
   return float(y.max() - y.min())
